@@ -20,9 +20,13 @@ import (
 
 // runModel: unit-level correspondences of the three Lean models (WR/C01/Model.lean) with the real code.
 //
-//	root  : tree.NewHTML's choice of root over child lists shaped like html.Parse output  vs pickRoot / pickRootFixed
+//	root  : tree.NewHTML's choice of root over child lists shaped like html.Parse output  vs pickRoot
 //	keep  : validation.PreprocessDeclarations on a list  vs  keepValid over the per-declaration results
 func runModel(modelPath string, seed uint64, tier, repo string, out *res.Result) error {
+	if modelPath == "" {
+		out.NotChecked = append(out.NotChecked, "L1 correspondences root / keep: no model driver given")
+		return nil
+	}
 	m, err := mp.Start(modelPath)
 	if err != nil {
 		return err
@@ -32,7 +36,6 @@ func runModel(modelPath string, seed uint64, tier, repo string, out *res.Result)
 	r := rng.New(seed ^ 0xC01A)
 
 	// ---- root discovery
-	follows := "" // which model the implementation follows: "current" / "fixed", decided by the first discriminating case
 	type shape struct {
 		dt        bool
 		pre, post int
@@ -74,7 +77,7 @@ func runModel(modelPath string, seed uint64, tier, repo string, out *res.Result)
 		if len(ans.Xs) != 3 || ans.Xs[0].S != "ok" {
 			return fmt.Errorf("model: unexpected answer %s", ans)
 		}
-		cur, fixed := ans.Xs[1].String(), ans.Xs[2].String()
+		cur := ans.Xs[1].String()
 		var impl string
 		oc := render.Guard(10*time.Second, func() {
 			h, err := tree.NewHTML(utils.InputString(src), "", nil, "")
@@ -109,23 +112,9 @@ func runModel(modelPath string, seed uint64, tier, repo string, out *res.Result)
 			out.Add(res.Finding{Kind: "judge", Op: "root-found", Input: src, Impl: impl, Model: cur,
 				Reason: "tree.NewHTML selected " + impl + " as the root instead of the <html> element", Key: "root-not-element"})
 		}
-		if cur != fixed && follows == "" {
-			if impl == cur {
-				follows = "current"
-			} else if impl == fixed {
-				follows = "fixed"
-			}
+		if impl != cur {
+			out.Add(res.Finding{Kind: "corr", Op: "corr:root", Input: src, Impl: impl, Model: cur, Reason: "root discovery differs from the model pickRoot"})
 		}
-		want := cur
-		if follows == "fixed" {
-			want = fixed
-		}
-		if impl != want {
-			out.Add(res.Finding{Kind: "corr", Op: "corr:root", Input: src, Impl: impl, Model: want, Reason: "root discovery differs from the model (" + follows + ")"})
-		}
-	}
-	if follows != "" {
-		out.Notes = append(out.Notes, "root discovery: the implementation follows the '"+follows+"' model (pickRoot = current code, pickRootFixed = proposed repair)")
 	}
 
 	// ---- keepValid vs PreprocessDeclarations
